@@ -4,9 +4,9 @@ Model/Checkpoint.lean — hand-written, executable, Mathlib-free model of
 every restart when `usecheckpoints=True`.
 
   checkpoint_files = glob(.../checkpoint.chkpt.it_*.h5)        any order
-  "find cmax"      first requested iteration that has files: one file ->
-                   'in file', several -> max of the `.file_<n>` numbers
-  per iteration    files whose name holds `it_<iit>.`; per file: the keys with
+  per iteration    files whose name holds `it_<iit>.`; cmax of THIS iteration
+                   (/repo bd9646b): one file -> 'in file', several -> max of
+                   the `.file_<n>` numbers; per file: the keys with
                    it == iit, rl == rl, tl == 0; the chunk range; per variable
                    and chunk THE key (exactly one, else ValueError); ghost
                    trimming; `var_chunks.setdefault(v, {})[iorigin] = block`;
@@ -21,11 +21,11 @@ A file is the list of its datasets whose names `parse_hdf5_key` accepts, in
 h5py (alphabetical) order.  `none` = the code raises (ValueError, IndexError,
 KeyError, TypeError, numpy shape mismatch).
 
-Not modelled: a requested variable name that exists in two thorns of the same
-file (e.g. `ML_BSSN::H` and `ML_ADMCONSTRAINTS::H`).  The code then rewrites its
-variable list to `THORN::var` names (one file per process, or no chunks) or
-raises (one file, several chunks); the model returns `none` whenever a
-(variable, chunk) selects more than one dataset.  `f"it_{iit}." in path` is
+Not modelled HERE (literal model: Model/MultiThorn.lean): a requested variable name
+that exists in two thorns of the same file (e.g. `ML_BSSN::H` and
+`ML_ADMCONSTRAINTS::H`).  The code then rewrites its variable list to `THORN::var`
+names (one file per process, or no chunks) or raises (one file, several chunks);
+this model returns `none` whenever a (variable, chunk) selects more than one dataset.  `f"it_{iit}." in path` is
 modelled as equality with the iteration in the file name (the directory names
 contain no `it_<n>.`).  The exception order is not modelled (any failure makes
 the whole call fail, as in Python).
@@ -68,14 +68,12 @@ inductive CMax where
   | inFile
   | num (n : Nat)
 
-/-- the `while it0_file == []` loop -/
-def findCmax {α : Type} (files : List (CFile α)) : List Nat → Option CMax
-  | [] => none                                            -- it[i]: IndexError
-  | it0 :: rest =>
-    match files.filter (fun f => f.itName == it0) with
-    | [] => findCmax files rest
-    | [_] => some .inFile
-    | fs => (mapOpt (fun f : CFile α => f.fileNo) fs).map fun ns => .num (ns.foldl max 0)   -- np.max; a missing number: TypeError
+/-- "find cmax for this iteration" (/repo bd9646b; it was taken from the first requested
+iteration that has files); `fs` = the files of the iteration, not empty -/
+def cmaxOf {α : Type} (fs : List (CFile α)) : Option CMax :=
+  match fs with
+  | [_] => some .inFile
+  | fs => (mapOpt (fun f : CFile α => f.fileNo) fs).map fun ns => .num (ns.foldl max 0)   -- np.max; a missing number: TypeError
 
 /-- `relevant_keys` -/
 def relevant {α : Type} (f : CFile α) (iit rl : Nat) : List (DSet α) :=
@@ -151,10 +149,20 @@ def addIt {α : Type} (toAurel : String → String) (var : List String) (data : 
     (t : Nat) (arrs : List (Arr3 α)) : Dict String (List (Cell α)) :=
   (var.zip arrs).foldl (fun d va => colAppend d (toAurel va.1) (Cell.arr va.2)) (colAppend data "t" (Cell.t t))
 
+/-- one iteration with the `cmax` found from its own files -/
+def readItAuto {α : Type} (files : List (CFile α)) (iit rl : Nat) (var : List String) :
+    Option (Option (Nat × List (Arr3 α))) :=
+  match files.filter (fun f => f.itName == iit) with
+  | [] => some none
+  | f0 :: fs =>
+    match cmaxOf (f0 :: fs) with
+    | none => none
+    | some cmax => readIt cmax files iit rl var
+
 /-- the body of `for iit in it:` -/
-def itStep {α : Type} (toAurel : String → String) (cmax : CMax) (files : List (CFile α)) (rl : Nat)
+def itStep {α : Type} (toAurel : String → String) (files : List (CFile α)) (rl : Nat)
     (var : List String) (data : Dict String (List (Cell α))) (iit : Nat) : Option (Dict String (List (Cell α))) :=
-  match readIt cmax files iit rl var with
+  match readItAuto files iit rl var with
   | none => none
   | some none => some data                                  -- "Could not find checkpoint file"
   | some (some ta) => some (addIt toAurel var data ta.1 ta.2)
@@ -163,10 +171,7 @@ def itStep {α : Type} (toAurel : String → String) (cmax : CMax) (files : List
 def readCheckpointsCore {α : Type} (toAurel : String → String) (files : List (CFile α)) (var : List String)
     (its : List Nat) (rl : Nat) : Option (Table (Cell α)) :=
   let it := sortedSet its
-  match findCmax files it with
-  | none => none
-  | some cmax =>
-    (it.foldlM (itStep toAurel cmax files rl var) [("t", [])]).map fun d => ⟨it, d⟩
+  (it.foldlM (itStep toAurel files rl var) [("t", [])]).map fun d => ⟨it, d⟩
 
 /-- `read_ET_checkpoints(param, var, it=its, rl=rl, restart=r)`; `var` are the
 Einstein Toolkit names (`transform_vars_aurel_to_ET` already applied), `toAurel`
